@@ -3,13 +3,13 @@ CONSTANTS
   NAuthor = 2
   NLog = 1
   MaxSeq = 1
-  Caps = {99}
+  Caps = {0, 1, 2, 99}
   StoreChoices <- EmptyOrFull
   LogsChoices <- LogsAll
   MaxMut = 1
   MutKinds = {"prune", "delete"}
-  Faults = FALSE
-  Defect_SendBlocksRecv = TRUE
+  Faults = TRUE
+  Defect_SendBlocksRecv = FALSE
   Fix_DoneOnce = TRUE
   Fix_StreamClosure = TRUE
 INVARIANTS
